@@ -802,7 +802,7 @@ def _make_schema_loop(schema: set[CIFSchema]) -> Loop | None:
 
 
 def _quotes_for_string_value(value: str) -> str | None:
-    if '\n' in value:
+    if '\n' in value or '\r' in value:
         return ';'
     if "'" in value:
         if '"' in value:
@@ -810,10 +810,15 @@ def _quotes_for_string_value(value: str) -> str | None:
         return '"'
     if '"' in value:
         return "'"
-    if ' ' in value:
+    if ' ' in value or '\t' in value:
         return "'"
     if not value:
         return "'"  # so that empty strings are shown as ''
+    if value.startswith(('_', '#', '$', '[', ']', ';')):
+        return "'"  # would be read as a tag, comment, reserved character or text field
+    lower = value.lower()
+    if lower in ('loop_', 'stop_', 'global_') or lower.startswith(('data_', 'save_')):
+        return "'"  # reserved words
     return None
 
 
